@@ -25,7 +25,7 @@
 //             through the `o_*` adapters below (W queries: C02, C03, C12);
 //   TAGGED    (C04 batches) every call is given a tag (round, block) computed from its position in the call sequence
 //             that the harness announced (`tag::begin_pass`), and its result is constrained ONLY against the first
-//             earlier call with the same tag: `x == x0 -> y == y0`.
+//             earlier call with the same tag: `x == x0 -> y == y0` (encoded as y = (x == x0) ? y0 : fresh).
 // Soundness of UF and TAGGED: every constraint ever imposed on the results has the form "two calls of the same
 // instruction with equal arguments return equal results", which the concrete instruction satisfies; so the set of
 // behaviours explored is a superset of the concrete behaviour whatever the tagging scheme is, and a property proved
@@ -116,15 +116,17 @@ pub mod tag {
                     let (r, b) = slot($t::K, $per);
                     $t::K += 1;
                     kani::assert(r < MAXR && b < MAXB, "VERIF_UF_CAPACITY");
-                    let y: u128 = kani::any();
+                    let fresh: u128 = kani::any();
                     if $t::SEEN[r][b] {
-                        kani::assume(($t::IN[r][b] != x) | (y == $t::OUT[r][b]));
+                        // x == x0 -> y == y0, written as a selection (no assumption: path guards stay small)
+                        let mask = 0u128.wrapping_sub(($t::IN[r][b] == x) as u128);
+                        ($t::OUT[r][b] & mask) | (fresh & !mask)
                     } else {
                         $t::SEEN[r][b] = true;
                         $t::IN[r][b] = x;
-                        $t::OUT[r][b] = y;
+                        $t::OUT[r][b] = fresh;
+                        fresh
                     }
-                    y
                 }
             }
         };
